@@ -1952,10 +1952,33 @@ def corpus_same_client_id_other_tenant_will(rng):
     return sc
 
 
+def corpus_local_log_fails_remote_accepts(rng):
+    """subscribers on both nodes; the publisher's own node cannot store the message while the other node can (and the
+    other way round): no acknowledgement, whichever destination is tried first — six publishes each way"""
+    sc = Scenario(rng, 2, 1)
+    p = sc.connect(node=0)
+    s0 = sc.connect(node=0)
+    s1 = sc.connect(node=1)
+    sc.sub(s0, [("t", 0)])
+    sc.sub(s1, [("t", 0)])
+    for bad, good, reader in ((0, 1, s1), (1, 0, s0)):
+        sc.ops.append(f"logfail {bad} all")
+        sc.ops.append(f"logfail {good} none")
+        for k in range(6):
+            sc.mid += 1
+            pl = "%02x" % sc.mid
+            sc.emit(f"pub {p} t {pl} 1 0 0 {sc.mid}", {reader: [pubstr("t", pl, 0, 0, 0)]}, "ack-despite-failed-write")
+    sc.ops.append("logfail 0 none")
+    sc.ops.append("logfail 1 none")
+    sc.pub(p, "t", "aa", 1)
+    return sc
+
+
 def corpus(rng, names):
     table = {"displacer-gone-before-ping": corpus_displacer_gone_before_ping,
              "returning-client-will": corpus_returning_client_will,
              "qos2-large-ids": corpus_qos2_handshakes_with_large_ids,
+             "local-log-fails-remote-accepts": corpus_local_log_fails_remote_accepts,
              "publish-workers-survive-failures": corpus_publish_workers_survive_failures,
              "same-client-id-other-tenant-will": corpus_same_client_id_other_tenant_will,
              "alternating-hosts": corpus_alternating_hosts, "retransmit-then-next": corpus_retransmit_then_next,
